@@ -69,6 +69,9 @@ func jobName(j Job) string {
 	case j.Wire != nil:
 		return "wire/" + j.Wire.name()
 	case j.Admit != nil:
+		if j.Admit.Mode != "" {
+			return "admission/" + j.Admit.Kind + "-" + j.Admit.Mode
+		}
 		return "admission/" + j.Admit.Kind
 	}
 	return "?"
